@@ -169,6 +169,35 @@ def gen_cases(ctx):
             if applicable(kind, shape):
                 yield from cases_for(kind, shape, basis=(shape[0] * shape[1] * shape[2] <= 12), nrand=6 if quick else 40,
                                      rand_vals=tuple(range(0, 2048, 8)), nsym=4 if quick else 20)
+    yield from gen_float_cases(ctx)
+
+
+def gen_float_cases(ctx):
+    """generic real-valued latents: seeded random float64 / float32 arrays for EVERY kind (exactness in floating point:
+    the output must equal its own mirror image bit for bit, a second application must change nothing)"""
+    rng = random.Random(ctx.seed + 7)
+    shapes2d = [[2, 2], [3, 3], [4, 4], [5, 5], [2, 3], [4, 3], [3, 6]]
+    shapes3d = [[2, 2, 2], [3, 3, 3], [4, 4, 4], [2, 3, 4], [4, 3, 2], [5, 5, 2], [2, 5, 5], [5, 2, 5], [3, 4, 3], [6, 2, 3], [1, 4, 4], [4, 4, 1]]
+    reps = 2 if ctx.quick else 12
+    n = 0
+    for kind in KINDS_2D + KINDS_3D:
+        cand = []
+        if kind in KINDS_2D:
+            for a, b in shapes2d:
+                for pos in range(3):
+                    sh = [a, b]
+                    sh.insert(pos, 1)
+                    cand.append(sh)
+        else:
+            cand = shapes3d
+        cand = [sh for sh in cand if applicable(kind, sh)]
+        for dtype in ("float64", "float32"):
+            for dist in ("normal", "uniform", "wide"):
+                for sym in (False, True):
+                    for _ in range(reps):
+                        n += 1
+                        yield {"id": f"{kind}-flt-{n}", "kind": kind, "shape": rng.choice(cand), "enc": "rank", "dtype": dtype, "dist": dist,
+                               "sym": sym, "fseed": rng.randrange(2**31)}
 
 
 _CFG = None
@@ -220,13 +249,82 @@ def _enc(a):
     return [int(v) for v in r], int(min(10**9, round(dev * 1e9)))
 
 
-def observe(case):
+MEAN_UNIT = 1e-13  # mean deviation is sent in units of 1e-13 relative to max|input|
+MEAN_TOL = {"float64": 10, "float32": 10**8}  # = 1e-12 / 1e-5 relative
+
+
+def _float_input(case):
+    import numpy as np
+
+    g = np.random.default_rng(case["fseed"])
+    shape = tuple(case["shape"])
+    if case["dist"] == "normal":
+        x = g.normal(size=shape)
+    elif case["dist"] == "uniform":
+        x = g.uniform(0.0, 1.0, size=shape)
+    else:  # magnitudes over many binades, both signs
+        x = g.normal(size=shape) * 10.0 ** g.integers(-6, 7, size=shape)
+    x = x.astype(np.float32 if case["dtype"] == "float32" else np.float64)
+    if case["sym"]:
+        x = _sym_input(case["kind"], x)  # x + mirrored x: float addition commutes, so this is exactly symmetric
+    return x
+
+
+def _ranks(*arrays):
+    """dense ranks of all values of all arrays together: integers that preserve == and < of the floats exactly"""
+    import numpy as np
+
+    flat = np.concatenate([np.asarray(a).ravel() for a in arrays])
+    _, inv = np.unique(flat, return_inverse=True)
+    out, k = [], 0
+    for a in arrays:
+        out.append([int(v) for v in inv[k:k + a.size]])
+        k += a.size
+    return out
+
+
+def observe_float(case):
     import jax.numpy as jnp
     import numpy as np
     from fdtdx.materials import Material
 
     kind, shape = case["kind"], tuple(case["shape"])
-    rec = {"id": case["id"], "kind": kind, "shape": list(shape), "inp": case["inp"], "scale": SCALE,
+    rec = dict(case)
+    rec.update({"err": "", "oshape": [], "rin": [], "r1": [], "r2": [], "finite": True, "samedtype": True, "mdev": 0, "mtol": MEAN_TOL[case["dtype"]]})
+    x = _float_input(case)
+    try:
+        t = _make(kind)
+        t = t.init_module(config=_config(), materials={"a": Material(permittivity=1.0), "b": Material(permittivity=2.0)},
+                          matrix_voxel_grid_shape=shape, single_voxel_size=(1.0, 1.0, 1.0), output_shape={"params": shape})
+        y1 = t({"params": jnp.asarray(x)})["params"]
+        rec["oshape"] = [int(v) for v in y1.shape]
+        if tuple(y1.shape) == shape:
+            y2 = t({"params": y1})["params"]
+            a1, a2 = np.asarray(y1), np.asarray(y2)
+            if tuple(a2.shape) != shape:
+                rec["oshape"] = [int(v) for v in a2.shape]
+                return rec
+            rec["samedtype"] = bool(a1.dtype == x.dtype and a2.dtype == x.dtype)
+            rec["finite"] = bool(np.all(np.isfinite(a1)) and np.all(np.isfinite(a2)))
+            if rec["finite"]:
+                rec["rin"], rec["r1"], rec["r2"] = _ranks(x, a1, a2)
+                scale = float(np.max(np.abs(x))) or 1.0
+                md = abs(float(np.mean(a1.astype(np.float64))) - float(np.mean(x.astype(np.float64)))) / scale
+                rec["mdev"] = int(min(2 * 10**9, round(md / MEAN_UNIT)))
+    except Exception as ex:
+        rec["err"] = (type(ex).__name__ + ": " + str(ex))[:160]
+    return rec
+
+
+def observe(case):
+    import jax.numpy as jnp
+    import numpy as np
+    from fdtdx.materials import Material
+
+    if case.get("enc") == "rank":
+        return observe_float(case)
+    kind, shape = case["kind"], tuple(case["shape"])
+    rec = {"id": case["id"], "kind": kind, "shape": list(shape), "enc": "int", "inp": case["inp"], "scale": SCALE,
            "err": "", "oshape": [], "out1": [], "out2": [], "dev": 0}
     x = jnp.asarray(np.asarray(case["inp"], dtype=np.float64).reshape(shape))
     try:
